@@ -15,6 +15,8 @@ structure St where
   heap : Heap
   out : String
   depth : Nat
+  dot : Val := .invalid
+  closures : List (String × List (String × Val) × Nat) := []   -- bound blocks: (template name, caller's variables, caller's depth)
   deriving Inhabited
 
 abbrev M := StateT St (Except Err)
@@ -489,6 +491,7 @@ def callBuiltin (name : String) (args : List Val) : M Val := do
           if i < 0 then throwE (.panic "index out of range") else
           pure (items.getD i.toNat .nil)
         | .nil, _ => pure .nil
+        | .invalid, _ => pure .invalid
         | _, _ => domainErr "__tryindex on a non-array"
       | "__attr", [.str k, v, .bool e] =>
         -- runtime.go __attr: bool / nil → BoolVal only; object or string → Val; anything else → fmt.Sprintf
@@ -562,9 +565,19 @@ def evalExpr : Nat → TExpr → M Val
   | fuel + 1, e =>
     match e with
     | .var x => do return lookupVar (← get).vars ("$" ++ x)
+    | .dot => do return (← get).dot
     | .lit v => pure v
     | .fcall name args =>
       if name == "null" then pure .nil else
+      if name == "__freeze" then
+        -- evalCall(__freeze): a bound block capturing the current scope
+        match args with
+        | [.lit (.str n)] => do
+          let st ← get
+          set { st with closures := st.closures ++ [(n, st.vars, st.depth)] }
+          pure (.bblock st.closures.length)
+        | _ => execErr "wrong number of args for __freeze"
+      else
       match builtinSig name with
       | none => domainErr s!"unknown function {name}"
       | some sig => do
@@ -614,6 +627,7 @@ def evalExpr : Nat → TExpr → M Val
         | none => if args.isEmpty then pure .nil else execErr "not a method"
       | .int _ | .flt _ | .bool _ => execErr s!"can't evaluate field {name}"
       | .attrs _ => domainErr "field of attribute list"
+      | .bblock _ => if args.isEmpty then pure .nil else execErr "not a method"
 
 /-- evaluate the argument list of a call against a signature (arity check, then per-parameter coercion) -/
 def evalArgs : Nat → Sig → String → List TExpr → M (List Val)
@@ -691,6 +705,7 @@ def rangeKind (v : Val) : M RangeKind := do
   | .nil | .invalid => pure .nothing
   | .B b | .bool b => pure (if b then .whileTrue else .nothing)
   | .attrs l => if l.isEmpty then pure .nothing else domainErr "range over attribute list"
+  | .bblock _ => execErr "range can't iterate over"
   | _ => execErr "range can't iterate over"
 
 /-- the `reflect.Bool` case of walkRange, for an arbitrary body and test:
@@ -737,7 +752,35 @@ def walk : Nat → Env → TNode → M Unit
       | .nothing => pure ()
       | .items l => walkItems fuel env decl body l
       | .whileTrue => loopM (walkList fuel env body) (evalExpr fuel e) fuel 0
-    | .template _ _ => domainErr "template invocation"
+    | .template tname arg => do
+      let st ← get
+      -- resolve the name: a literal, or the content of a variable (a bound block, or its text)
+      let (name, bound) : String × Option (List (String × Val) × Nat) := match tname with
+        | .lit n => (n, none)
+        | .var x =>
+          match lookupVar st.vars ("$" ++ x) with
+          | .bblock id =>
+            match st.closures[id]? with
+            | some (n, vars, d) => (n, some (vars, d))
+            | none => ("", none)
+          | .S s | .str s => (s, none)
+          | _ => ("{}", none)
+      match env.defs.find? (·.1 == name) with
+      | none => pure ()                       -- `tmpl == nil`: nothing, silently
+      | some (_, body) =>
+        if st.depth ≥ Gen.maxExecDepth then execErr "exceeded maximum template depth" else do
+        let dotV ← match arg with
+          | some a => evalExpr fuel a
+          | none => pure .invalid
+        let st ← get
+        -- the callee runs in a copy of the state: its variables are the globals, or the bound scope's variables
+        let (vars, d) := match bound with
+          | some (vs, d) => (vs, d)
+          | none => (st.globals, st.depth)
+        set { st with vars := vars, depth := d + 1, dot := dotV }
+        walkList fuel env body
+        -- back in the caller: its own variables and dot; heap, output and the closure table persist
+        modify fun s' => { s' with vars := st.vars, depth := st.depth, dot := st.dot }
 
 def walkList : Nat → Env → List TNode → M Unit
   | 0, _, _ => throwE .fuel
